@@ -236,6 +236,44 @@ def run(ctx):
                     ctx.fail("the same request sent again is not the same exchange", meta,
                              None if seen2 is None else [got2[:40], reply2.message[:40]],
                              [msg[:40], resp_body[:40]])
+        # ---- bodies whose first / last bytes a tolerant reader might take for padding: byte order marks and parts of
+        # them, white space, NUL - as message and as response, plain and under each content coding
+        edges = [b"\xef\xbb\xbf", b"\xef", b"\xbb", b"\xbf\xef", b"\xff\xfe", b"\xfe\xff", b" ", b"\n", b"\r\n", b"\t",
+                 b"\x00", b"\x0b\x0c", b"\xc2\xa0", b"\x1f\x8b", b"\x78\x9c"]
+        for edge in edges:
+            for where in ("start", "end", "both", "only"):
+                core = b"<a>x</a>"
+                body_ = {"start": edge + core, "end": core + edge, "both": edge + core + edge, "only": edge * 2}[where]
+                for coding in (None, "gzip", "deflate"):
+                    wire = body_ if coding is None else gzip.compress(body_) if coding == "gzip" else zlib.compress(body_)
+                    rh = [("Content-Encoding", coding)] if coding else []
+                    srv.httpd.plan = lambda h, wire=wire, rh=rh: {"status": 200, "body": wire, "headers": rh}
+                    t = suds.transport.http.HttpTransport()
+                    req = suds.transport.Request(srv.url(), body_)
+                    req.headers = {"Content-Type": "text/xml"}
+                    if coding:
+                        req.headers["Content-Encoding"] = coding
+                    del srv.httpd.seen[:]
+                    meta = {"stream": "edge-bytes", "edge": repr(edge), "where": where, "coding": coding}
+                    ctx.case(("edge-bytes", repr(edge), where, coding), True)
+                    try:
+                        reply = t.send(req)
+                    except Exception as e:
+                        ctx.fail("plain exchange failed", meta, repr(e), "a reply")
+                        continue
+                    seen = srv.httpd.seen[-1] if srv.httpd.seen else None
+                    got = None if seen is None else seen["body"]
+                    try:
+                        if got is not None and coding == "gzip":
+                            got = gzip.decompress(got)
+                        elif got is not None and coding == "deflate":
+                            got = zlib.decompress(got)
+                    except Exception as e:
+                        got = b"!undecodable: " + repr(e).encode()
+                    if got != body_:
+                        ctx.fail("server did not receive the envelope bytes", meta, repr(got), repr(body_))
+                    if reply.message != body_:
+                        ctx.fail("caller did not receive the response body", meta, repr(reply.message), repr(body_))
         # ---- the SOAPAction a real client sends (declared in the WSDL, non-ASCII included), over the real transport
         for action in ("urn:act", "caf\u00e9-\u00fcber", "\u03a9mega", ""):
             wsdl = wsdlkit.wsdl_doc('<xsd:element name="f"><xsd:complexType><xsd:sequence/></xsd:complexType>'
@@ -505,6 +543,36 @@ def run(ctx):
         if recs != [["u1:p1"], ["u2:p2"], ["u2:"]]:
             ctx.fail("server does not recover the username and password from the Authorization header",
                      {"history": "one Request sent again after the credentials changed"}, recs, [["u1:p1"], ["u2:p2"], ["u2:"]])
+        # ---- a copy of a configured transport (what Client.clone() makes) is configured the same: it sends the
+        # credentials the original was given
+        import copy
+        for how in ("deepcopy", "client.clone", "clone-of-clone"):
+            user, pw = rng.choice(pool).replace(":", "") or "u", rng.choice(pool)
+            t0 = suds.transport.http.HttpAuthenticated(username=user, password=pw, timeout=33)
+            ctx.case(("copied-transport", how, user, pw), True)
+            del srv.httpd.seen[:]
+            srv.httpd.plan = lambda h: {"status": 200, "body": b""}
+            try:
+                if how == "deepcopy":
+                    t1 = copy.deepcopy(t0)
+                    t1.send(suds.transport.Request(srv.url(), b"<m/>"))
+                else:
+                    wsdl = wsdlkit.wsdl_doc('<xsd:element name="f"><xsd:complexType><xsd:sequence/></xsd:complexType>'
+                                            '</xsd:element>', "f", None, location=srv.url("/cl"), action="urn:a")
+                    c0 = wsdlkit.client(wsdl, transport=t0)
+                    c1 = c0.clone() if how == "client.clone" else c0.clone().clone()
+                    t1 = c1.options.transport
+                    c1.service.f()
+            except Exception as e:
+                ctx.fail("authenticated exchange failed", {"stream": "copied-transport", "how": how}, repr(e), "a reply")
+                continue
+            auth = hdr(srv.httpd.seen[-1], "Authorization") if srv.httpd.seen else []
+            rec = [base64.b64decode(a[6:]).decode("utf-8") if a.startswith("Basic ") else a for a in auth]
+            got = [rec, t1.options.timeout, t1 is t0]
+            want = [["%s:%s" % (user, pw)], 33, False]
+            if got != want:
+                ctx.fail("server does not recover the username and password from the Authorization header",
+                         {"stream": "copied-transport", "how": how, "user": user, "password": pw}, got, want)
         # ---- non-HTTP failures propagate unchanged; non-ASCII URLs rejected before any I/O
         closed = socket.socket()
         closed.bind(("127.0.0.1", 0))
